@@ -20,7 +20,8 @@ def run(tier, rep):
     stride = 4 if tier == "quick" else 1
 
     def relation(rep, inst, cases):
-        pc.run_relation(rep, "c06-algebra", inst, cases, stride=stride if inst in ("children", "docs4") else 1)
+        pc.run_relation(rep, "c06-algebra", inst, cases, stride=stride if inst in ("children", "docs4") else 1,
+                        extra=["--scale", 1 if inst == "docs3" else 0])
 
     # "a failed extension reports an error rather than a partial result": the fault histories whose fault is in an extend
     pc.check(rep, "C06", tier, ["errors"], {"verdict"}, None, 0, invariants=["TypeOK", "Verdict"],
